@@ -6,15 +6,17 @@
 
    A curve is a record [p, a, b, gx, gy, n, h, m] with p, a, b, gx, gy, n limb tuples and h, m native integers;
    a point is << >> (neutral element) or << x, y >> with limb-tuple coordinates.
-   Modular inverses are Fermat powers through BigNatX!XModExp, products through XMul/XMod: with the compiled
-   java.math.BigInteger override a 256-bit verification costs about a second, without it (pure TLA+) minutes.  *)
-EXTENDS BigNatX, Sequences
+   Modular inverses are Fermat powers through BigNatX!XModExp, products through XMul/XMod, sums and differences
+   through EcdsaBigX!YAddMod/YSubMod: with the compiled java.math.BigInteger overrides a 256-bit verification costs
+   seconds, without them (pure TLA+) many minutes.  The definitions stay the authority (override = definition is
+   checked on samples by every run).                                                                            *)
+EXTENDS EcdsaBigX, Sequences
 
 BInf == << >>
 BG(c) == << c.gx, c.gy >>
 BMulP(u, v, p) == XMulMod(u, v, p)
-BAddM(u, v, m) == LET t == Add(u, v) IN IF Lt(t, m) THEN t ELSE Sub(t, m)            \* 0 <= u, v < m  (no division)
-BSubM(u, v, m) == IF Le(v, u) THEN Sub(u, v) ELSE Sub(Add(u, m), v)                  \* 0 <= u, v < m
+BAddM(u, v, m) == YAddMod(u, v, m)                                                    \* 0 <= u, v < m  (no division)
+BSubM(u, v, m) == YSubMod(u, v, m)                                                    \* 0 <= u, v < m
 BInvP(v, p) == XModExp(v, Sub(p, << 2 >>), p)                    \* p prime, v mod p # 0
 BNegP(v, p) == IF v = Zero THEN Zero ELSE Sub(p, v)             \* 0 <= v < p
 BRhs(c, x) == BAddM(BAddM(BMulP(BMulP(x, x, c.p), x, c.p), BMulP(c.a, x, c.p), c.p), c.b, c.p)
@@ -83,12 +85,14 @@ BHashE(c, alg, hb) == IF alg = "ecdsa" THEN BEcdsaE(c, BBEInt(hb), 8 * Len(hb)) 
 BFieldBytes(c) == (c.m + 7) \div 8
 BMin2(x, y) == IF x < y THEN x ELSE y
 BHashESet(c, alg, order, hb) ==          \* the admissible readings, exactly as Ecdsa!HashESet
-   LET Bn   == BFieldBytes(c)
-       std  == IF order = "be" THEN hb ELSE BRev(hb)
-       head == IF order = "be" THEN SubSeq(hb, 1, BMin2(Bn, Len(hb))) ELSE BRev(SubSeq(hb, 1, BMin2(Bn, Len(hb))))
-   IN  IF Len(hb) <= Bn THEN { BHashE(c, alg, std) }
-       ELSE IF alg = "ecdsa" /\ order = "be" THEN { BHashE(c, alg, std) }
-       ELSE { BHashE(c, alg, std), BHashE(c, alg, head) }
+   LET Bn  == BFieldBytes(c)
+       S   == IF order = "be" THEN hb ELSE BRev(hb)
+       msB == SubSeq(S, 1, BMin2(Bn, Len(S)))
+       lsB == SubSeq(S, Len(S) - BMin2(Bn, Len(S)) + 1, Len(S))
+   IN  IF Len(hb) <= Bn THEN { BHashE(c, alg, S) }
+       ELSE { BHashE(c, alg, S) }
+            \cup (IF alg = "gost" THEN { BHashE(c, alg, msB) } ELSE { })
+            \cup (IF order = "le" THEN { BHashE(c, alg, lsB) } ELSE { })
 \* documented library conversion (classification only)
 BLcbReduce(x, n) == IF Lt(x, n) THEN x ELSE Add(XMod(x, Sub(n, One)), One)
 BLcbE(c, alg, order, hb) ==
